@@ -32,7 +32,8 @@ def _check_structural_constraint(must_link, cannot_link):
         for node in reacheable_nodes:
             samples_to_explore.remove(node)
 
-        for i, j in itertools.combinations(reacheable_nodes, r=2):
+        # Nodes are positions in unique_indices: translate them back to sample indices before comparing
+        for i, j in itertools.combinations([unique_indices[node] for node in reacheable_nodes], r=2):
 
             for pair in cannot_link:
                 pair_i, pair_j = pair
